@@ -213,7 +213,7 @@ def build_harness():
 
 # modes that start a processor and a simulated cluster per case keep a little per case (the repository's global statistics
 # registry never forgets a processor's counters): a long run is split into several harness processes
-CHUNK = 500
+CHUNK = 250
 CHUNKED = {"c01", "c03", "c04", "c04strict", "c07", "c20", "c02", "c09", "c14e2e", "c14e2et", "c06tcp", "c05", "c01frame"}
 
 
